@@ -2,19 +2,25 @@
 
 Fault enumeration: real RpcMultiNode objects (raw, and behind the real ShellQuery tree) are driven over a
 recording fake of requests.request; every call is given one of {ok, RpcError(404), RpcError(500 permanent),
-transport exception}.  Oracle (the statement): the i-th request OF A CLIENT reaches node i mod n OF THAT CLIENT.
+transport exception} or, in the wide alphabet, an outcome with SEVERAL answers: transient errors (5xx JSON error of kind
+temporary, 5xx text naming prevalidator.ml) that the real retry loop of RpcNode.request retries (sleep faked), 1, 2, 3 or
+up to the attempt limit times, followed by success, by a final HTTP error or by a transport exception; and a temporary
+proto.* error, which is not retried.  Oracle (the statement): the i-th request OF A CLIENT reaches node i mod n OF THAT
+CLIENT, a request being one call of the user: its FIRST attempt is judged; which node the retries of the same request
+reach is not pinned by the statement (counted, no verdict).
 
 Five families of cases, all judged call by call:
   seq    a fresh client per outcome sequence: EVERY sequence of length L, for every entry point; behind the
          ShellQuery layer the calls cycle through five kinds of query (streaming monitor, plain GET, the
          raw-context queries that carry their own timeout, a POST helper) in every phase, and every word over
-         kind x outcome up to a smaller length;
+         kind x outcome up to a smaller length; and every word over the wide alphabet (retried requests) up to a
+         smaller length, for every entry point;
   long   ONE long-lived client that is fed every outcome word of width W back to back, far beyond the small
-         powers of two at which a counter could wrap;
+         powers of two at which a counter could wrap; and one that is fed EVERY word of width W' over the wide alphabet;
   multi  two clients with n_a, n_b nodes used alternately in one process (every word over client x outcome), the
-         second one created after the first has already sent requests;
+         second one created after the first has already sent requests; also over outcomes with 0, 1, 2, 5 retries;
   shared ONE client used through three handles (two ShellQuery trees and the client itself), every word over
-         handle x outcome;
+         handle x outcome; also over outcomes with 0, 1, 2, 5 retries;
   tree   a request through EVERY registered query class of the tree (itself, a child attribute, a child item; GET
          and its POST/PUT/DELETE helper), between probe requests, used twice.
 A case is self-contained (it creates all the clients it needs), so replaying it in a fresh process gives the same
@@ -39,25 +45,48 @@ LEVEL = 'fault_enumeration'
 LEVEL_TEXT = ('the rotation state is one integer modulo n; every outcome sequence up to a length well beyond n is enumerated for n = 1..4 and for '
               'every entry point (raw request, get/post, the ShellQuery layer incl. streaming monitors, queries with their own timeout and every '
               'registered query class), for a long-lived client beyond 2^16 requests, for two clients used alternately in one process and for one '
-              'client used through several handles, so every reachable behaviour within those bounds is decided')
+              'client used through several handles; requests that the single-node layer retries internally (transient errors) are part of the '
+              'outcome alphabet, with the real retry loop running; so every reachable behaviour within those bounds is decided')
 RULE = ('seq: every outcome sequence of length L over {ok,404,500-permanent,ConnectionError} x n in 1..4 nodes x entry in {request, get, post, '
         'ShellQuery layer cycling monitor/GET/raw-bytes/POST/raw-json queries, in several phases} plus every word over (query kind x outcome) of '
         'length P; long: one client per (n, entry) fed every outcome word of width W back to back for N requests; multi: every word of length M over '
         '(client A|B x outcome) for every ordered pair (n_a, n_b), clients created at first use; shared: every word of length S over (handle in two '
         'shells + raw client x outcome); tree: every registered RpcQuery class x {itself, child attr, child item} x {GET, helper verb} x outcome pair. '
-        'non-trivial = a case (for long: an outcome word) in which a call FAILED (raised) and a later request was issued; distinct by the whole case')
+        'rseq: every word of length R over the wide alphabet {ok,404,500-permanent,ConnectionError, temporary proto error (not retried), '
+        'transient x1 -> ok, transient x2 -> ok, prevalidator text x1 -> ok, transient x3 -> 404, prevalidator text x2 -> 500, transient x1 -> '
+        'ConnectionError, transient until the attempt limit} containing a letter outside the basic four, same entries; long/ext: one client fed EVERY '
+        "word of width W' over the wide alphabet back to back; multi and shared also over {ok, 1, 2, 5 retries}. "
+        'A request = one call of the user; its first attempt is judged, retries of the same request are not (counted in extra). '
+        'non-trivial = a case (for long: an outcome word) in which a call FAILED (raised) or was retried internally and a later request was issued; '
+        'distinct by the whole case')
 BOUND = {'quick': 'n<=4; seq L=7 (request), L=6 x 2 phases (shell), P=3; long N=2^16+16 (request) / 2^13+16 (shell), W=8; multi M=4 (request) / 3 (shell), '
-                  'lazy creation; shared S=3; tree: 49 registered query classes + 2 plain paths',
+                  'lazy creation; shared S=3; tree: 49 registered query classes + 2 plain paths; wide alphabet (12 outcomes, up to 5 retries): rseq R=4 (request) / '
+                  "3 (shell), long/ext W'=4 (request, 82944 requests) / 3 (shell), multi and shared also over {ok, 1, 2, 5 retries}",
          'thorough': 'n<=4; seq L=9 (request, get, post), L=7 x 3 phases (shell), P=4; long N=2^20+16 (request, get, post) / 2^16+16 (shell), W=10; '
-                     'multi M=5 (request) / 4 (shell), lazy and upfront creation; shared S=4; tree: 49 registered query classes + 2 plain paths'}
+                     'multi M=5 (request) / 4 (shell), lazy and upfront creation; shared S=4; tree: 49 registered query classes + 2 plain paths; wide alphabet '
+                     "(12 outcomes, up to 5 retries): rseq R=5 (request, get, post) / 4 (shell), long/ext W'=5 (request, get, post) / 4 (shell), multi and "
+                     'shared also over {ok, 1, 2, 5 retries}'}
 ASSUMPTIONS = ['requests.request and sleep are the only environment seams of RpcNode.request',
+               'attempts that follow a transient answer (5xx kind temporary / prevalidator.ml) within one call are retries of the same request',
                'a counter wrap beyond 2^16 (quick) / 2^20 (thorough) requests of one client is out of reach of enumeration']
 OUTCOMES = ['ok', 'e404', 'e500', 'exc']
+# outcome -> the answers given to the successive ATTEMPTS of one request (the last answer repeats).  'tmp' (HTTP 503, JSON error of
+# kind temporary) and 'prev' (HTTP 502, text mentioning prevalidator.ml) are the answers the retry loop of RpcNode.request retries
+# (it runs for real, over a fake sleep); 'proto' is a temporary error of the protocol, which it does not retry.
+SCRIPTS = {'ok': ['ok'], 'e404': ['e404'], 'e500': ['e500'], 'exc': ['exc'], 'proto': ['proto'],
+           't1ok': ['tmp', 'ok'], 't2ok': ['tmp', 'tmp', 'ok'], 'p1ok': ['prev', 'ok'], 't3e404': ['tmp', 'tmp', 'tmp', 'e404'],
+           'p2e500': ['prev', 'prev', 'e500'], 't1exc': ['tmp', 'exc'], 'tfail': ['tmp']}
+RETRYABLE = ('tmp', 'prev')
+RETRIES_SEEN = [0]     # attempts after the first one of a request: which node they reach is not pinned by the statement
+EXT = OUTCOMES + ['proto', 't1ok', 't2ok', 'p1ok', 't3e404', 'p2e500', 't1exc', 'tfail']   # the wide alphabet (short words)
+ALT = ['ok', 't1ok', 'p2e500', 'tfail']      # four letters with 0, 1, 2 and 5 retries: for the families over pairs (who x outcome)
+ALPHABETS = {'basic': OUTCOMES, 'ext': EXT, 'alt': ALT}
 SHELL_KINDS = ['monitor', 'get', 'rawb', 'post', 'rawj']
 DIRECT = ('request', 'get', 'post')
 
 D_AFTER_FAIL = 'request after failure goes to wrong node'
 D_AFTER_OK = 'request after success goes to wrong node'
+D_AFTER_RETRY = 'request after an internally retried request goes to wrong node'
 D_LONG = 'request of a long-lived client goes to wrong node'
 D_MULTI = 'request goes to wrong node when another multi-node client is used in the same process'
 D_SHARED = 'request goes to wrong node when one client is used through several handles'
@@ -82,9 +111,11 @@ class Session:
     def __init__(self):
         self.clients = []
         self.ns = []
-        self.sent = []      # per client: node indices in wire order
+        self.sent = []      # per client: node indices in wire order (every attempt)
+        self.firsts = []    # per client: node reached by the FIRST attempt of each request
+        self.reqs = []      # per client: requests issued so far (a request = one call of the user, however often it is retried)
         self.nwire = 0      # every request seen on the wire, whoever sent it
-        self.outcome = 'ok'
+        self.script, self.attempt, self.cur = SCRIPTS['ok'], 0, []
         import requests.exceptions
         from pytezos.rpc.node import RpcError, RpcMultiNode
         self.RpcError, self.RpcMultiNode, self.ConnectionError = RpcError, RpcMultiNode, requests.exceptions.ConnectionError
@@ -94,28 +125,40 @@ class Session:
         self.clients.append(self.RpcMultiNode([f'http://c{c}n{i}.invalid' for i in range(n)]))
         self.ns.append(n)
         self.sent.append([])
+        self.firsts.append([])
+        self.reqs.append(0)
         return c
 
     def fake(self, **kw):
         self.nwire += 1
+        a = self.script[min(self.attempt, len(self.script) - 1)]
+        self.attempt += 1
         m = _URL.match(str(kw.get('url')))
         if m is not None and int(m.group(1)) < len(self.sent):
             self.sent[int(m.group(1))].append(int(m.group(2)))
-        o = self.outcome
-        if o == 'ok':
+            self.cur.append((int(m.group(1)), int(m.group(2)), a))
+        if a == 'ok':
             return _Response(200, {'x': 1})
-        if o == 'e404':
+        if a == 'e404':
             return _Response(404, 'nope', 'text/plain')
-        if o == 'e500':
+        if a == 'e500':
             return _Response(500, [{'kind': 'permanent', 'id': 'x.y'}])
+        if a == 'tmp':
+            return _Response(503, [{'kind': 'temporary', 'id': 'node.prevalidation.busy'}])
+        if a == 'prev':
+            return _Response(502, 'Assert_failure src/lib_shell/prevalidator.ml:1918:8', 'text/plain')
+        if a == 'proto':
+            return _Response(500, [{'kind': 'temporary', 'id': 'proto.alpha.michelson_v1.script_rejected'}])
         raise self.ConnectionError('boom')
 
     def call(self, c, fn, outcome, exact=True):
         """One call on behalf of client c.  Returns (how the call ended, None | why the rotation is broken).
-        exact: the call is one request by construction; otherwise every request it issues is judged."""
-        sent, n = self.sent[c], self.ns[c]
-        before, w0 = len(sent), self.nwire
-        self.outcome = outcome
+        exact: the call is ONE request of the user by construction: its first attempt is judged, the attempts that follow an answer
+        the retry loop retries are retries of the same request (not judged); otherwise (only with outcomes that are never retried)
+        every request the call issues is judged."""
+        n, i = self.ns[c], self.reqs[c]
+        w0 = self.nwire
+        self.script, self.attempt, self.cur = SCRIPTS[outcome], 0, []
         try:
             fn()
             res = 'returned'
@@ -123,17 +166,37 @@ class Session:
             res = 'RpcError'
         except Exception as e:  # transport errors, and whatever a broken client may raise
             res = 'transport error' if type(e).__name__ == 'ConnectionError' else 'other exception'
-        new = sent[before:]
+        new = [(h, a) for cc, h, a in self.cur if cc == c]
+        nodes = [h for h, _ in new]
         bad = None
         if self.nwire - w0 != len(new):
             bad = f'{self.nwire - w0 - len(new)} request(s) left for a node that is not one of this client'
-        elif exact and len(new) != 1:
-            bad = f'the call put {len(new)} requests on the wire (nodes {new}), expected 1 to node {before % n}'
+        elif exact:
+            retries = 0
+            if not new:
+                bad = f'the call put no request on the wire, expected one to node {i % n}'
+            elif nodes[0] != i % n:
+                bad = f'request #{i} of the client reached node {nodes[0]}, expected {i % n}'
+            else:
+                for j in range(1, len(new)):
+                    if new[j - 1][1] not in RETRYABLE:
+                        bad = (f'the call put {len(new)} requests on the wire (nodes {nodes}) although answer #{j - 1} was not one that is '
+                               f'retried, expected 1 to node {i % n}')
+                        break
+                    retries += 1
+            if new:
+                self.firsts[c].append(nodes[0])
+            self.reqs[c] += 1
+            RETRIES_SEEN[0] += retries
+            if retries:
+                res += ' after retries'
         else:
-            for j, h in enumerate(new):
-                if h != (before + j) % n:
-                    bad = f'request #{before + j} of the client reached node {h}, expected {(before + j) % n}'
+            for j, h in enumerate(nodes):
+                if h != (i + j) % n:
+                    bad = f'request #{i + j} of the client reached node {h}, expected {(i + j) % n}'
                     break
+            self.firsts[c] += nodes
+            self.reqs[c] += len(new)
         return res, bad
 
 
@@ -161,6 +224,8 @@ def _direct_call(client, method):
 
 def _plain(prev):
     """Descriptor of a failure that needs nothing but one client and one handle."""
+    if len(SCRIPTS.get(prev, ())) > 1 or prev == 'tfail':
+        return D_AFTER_RETRY
     return D_AFTER_FAIL if prev not in ('ok', '-') else D_AFTER_OK
 
 
@@ -203,20 +268,22 @@ def run_seq(case):
             if bad:
                 prev = seq[i - 1] if i else '-'
                 out.append((_plain(prev),
-                            f'n={n} entry={method} kinds={kinds} seq={list(seq)} call #{i}: {bad}; wire={s.sent[c]}'))
+                            f'n={n} entry={method} kinds={kinds} seq={list(seq)} call #{i}: {bad}; wire (every attempt)={s.sent[c]} first attempts={s.firsts[c]}'))
                 break
     return out, results, s.sent
 
 
-def long_outcome(j, W):
-    """Outcome of request j: the outcome words of width W in counting order, back to back."""
+def long_outcome(j, W, alpha=OUTCOMES):
+    """Outcome of request j: the outcome words of width W over the alphabet in counting order, back to back."""
     k, pos = divmod(j, W)
-    return OUTCOMES[(k // 4 ** (W - 1 - pos)) % 4]
+    return alpha[(k // len(alpha) ** (W - 1 - pos)) % len(alpha)]
 
 
 def run_long(case, r=None):
     from pytezos.rpc.shell import ShellQuery
     n, N, W, method = case['n'], case['N'], case['W'], case['method']
+    an = case.get('alpha', 'basic')
+    alpha = ALPHABETS[an]
     s = Session()
     out = []
     word = []
@@ -225,7 +292,7 @@ def run_long(case, r=None):
         cl = s.clients[c]
         shell = ShellQuery(node=cl) if method == 'shell' else None
         for j in range(N):
-            o = long_outcome(j, W)
+            o = long_outcome(j, W, alpha)
             if shell is not None:
                 kind = SHELL_KINDS[j % 5]
                 res, bad = s.call(c, lambda: _shell_call(shell, kind), o)
@@ -233,19 +300,19 @@ def run_long(case, r=None):
                 res, bad = s.call(c, lambda: _direct_call(cl, method), o)
             word.append(res)
             if bad:
-                out.append((D_LONG if j >= 16 else _plain(long_outcome(j - 1, W) if j else '-'),
-                            f'n={n} entry={method} one client, outcome words of width {W} back to back: call #{j}: {bad}; '
-                            f'previous nodes {s.sent[c][-6:-1]}'))
+                out.append((D_LONG if j >= 16 else _plain(long_outcome(j - 1, W, alpha) if j else '-'),
+                            f'n={n} entry={method} one client, outcome words of width {W} over {alpha} back to back: call #{j} (outcome {o}, previous '
+                            f'{[long_outcome(x, W, alpha) for x in range(max(0, j - 3), j)]}): {bad}; first attempts of the previous requests {s.firsts[c][-6:-1]}'))
                 break
             if len(word) == W:
                 if r is not None:
                     r.ev()
                     if _nontrivial(word):
-                        r.nt(('long', n, method, j // W))
-                    r.out(f'long/{method}: {_res_class(word)}')
+                        r.nt(('long', n, method, j // W) if an == 'basic' else ('long', an, n, method, j // W))
+                    r.out(f'long/{method}{"" if an == "basic" else "/" + an}: {_res_class(word)}')
                 word = []
     tail = s.sent[c][-8:]
-    return out, [], {'requests': len(s.sent[c]), 'last': tail}
+    return out, [], {'requests': s.reqs[c], 'attempts': len(s.sent[c]), 'last': tail}
 
 
 def run_multi(case):
@@ -278,7 +345,7 @@ def run_multi(case):
             if bad:
                 both = len({w for w, _ in word[:i + 1]}) == 2
                 out.append((D_MULTI if both else _plain(word[i - 1][1] if i else '-'), f'clients A,B with {ns} nodes ({create} creation), entry={entry}, word={word}: call #{i} on client '
-                                     f'{"AB"[which]}: {bad}; wire per client={[s.sent[ids[k]] for k in sorted(ids)]}'))
+                                     f'{"AB"[which]}: {bad}; wire (every attempt) per client={[s.sent[ids[k]] for k in sorted(ids)]}'))
                 break
     return out, results, [s.sent[ids[k]] if k in ids else None for k in (0, 1)]
 
@@ -303,7 +370,7 @@ def run_shared(case):
             if bad:
                 several = len({w for w, _ in word[:i + 1]}) > 1
                 out.append((D_SHARED if several else _plain(word[i - 1][1] if i else '-'), f'n={n} handles 0,1 = two ShellQuery trees, 2 = the client itself; word={word}: call #{i}: {bad}; '
-                                      f'wire={s.sent[c]}'))
+                                      f'wire (every attempt)={s.sent[c]}'))
                 break
     return out, results, s.sent
 
@@ -406,14 +473,17 @@ def _cost(spec, tier):
     if k == 'prod':
         _, n, P, first, k0 = spec
         return 20 ** (P - 1) * (5 if k0 is None else 1) * P * 0.32
+    if k == 'rseq':
+        _, n, R, first, method = spec
+        return len(EXT) ** (R - 1) * R * 2.4 * (0.375 if method == 'shell' else 0.035)
     if k == 'long':
-        return spec[2] * (0.324 if spec[3] == 'shell' else 0.03)
+        return spec[2] * (0.324 if spec[3] == 'shell' else 0.03) * (1 if spec[5] == 'basic' else 2.4)
     if k == 'multi':
-        _, na, nb, M, entry, create, first = spec
-        return 8 ** M / (1 if first is None else 4) * M * (0.4 if entry == 'shell' else 0.04)
+        _, na, nb, M, entry, create, first, alpha = spec
+        return 8 ** M / (1 if first is None else 4) * M * (0.4 if entry == 'shell' else 0.04) * (1 if alpha == 'basic' else 3)
     if k == 'shared':
-        _, n, S, first = spec
-        return 3 * 12 ** (S - 1) * S * 0.35
+        _, n, S, first, alpha = spec
+        return 3 * 12 ** (S - 1) * S * 0.35 * (1 if alpha == 'basic' else 3)
     return 450 * 1.2
 
 
@@ -428,10 +498,18 @@ def shards(tier, seed):
                 sp.append(('seq', n, 6 if q else 7, first, 'shell', shift))
             for k0 in ([None] if q else SHELL_KINDS):
                 sp.append(('prod', n, 3 if q else 4, first, k0))
-            sp.append(('shared', n, 3 if q else 4, first))
+            sp.append(('shared', n, 3 if q else 4, first, 'basic'))
+        for first in ALT:
+            sp.append(('shared', n, 3 if q else 4, first, 'alt'))
+        for first in EXT:       # the wide alphabet (requests that are retried inside the client), short words
+            for m in (['request'] if q else list(DIRECT)):
+                sp.append(('rseq', n, 4 if q else 5, first, m))
+            sp.append(('rseq', n, 3 if q else 4, first, 'shell'))
         for m in (['request', 'shell'] if q else list(DIRECT) + ['shell']):
             N = (2 ** (13 if q else 16) if m == 'shell' else 2 ** (16 if q else 20)) + 16
-            sp.append(('long', n, N, m, 8 if q else 10))
+            sp.append(('long', n, N, m, 8 if q else 10, 'basic'))
+            W = (3 if q else 4) if m == 'shell' else (4 if q else 5)     # EVERY word of width W over the wide alphabet, back to back
+            sp.append(('long', n, len(EXT) ** W * W, m, W, 'ext'))
         for part in range(8):
             sp.append(('tree', n, part, 8))
     for na in (1, 2, 3, 4):
@@ -440,7 +518,9 @@ def shards(tier, seed):
                 M = (3 if q else 4) if entry == 'shell' else (4 if q else 5)
                 for create in (['lazy'] if q else ['lazy', 'upfront']):
                     for first in ([None] if q else OUTCOMES):
-                        sp.append(('multi', na, nb, M, entry, create, first))
+                        sp.append(('multi', na, nb, M, entry, create, first, 'basic'))
+                    for first in ([None] if q else ALT):
+                        sp.append(('multi', na, nb, M, entry, create, first, 'alt'))
     # static lanes are shards[k::16]: order by cost, boustrophedon, so that the lanes are balanced
     sp.sort(key=lambda x: (-_cost(x, tier), repr(x)))
     out = []
@@ -466,16 +546,26 @@ def _cases(spec):
             for rest in itertools.product(letters, repeat=P - 1):
                 w = [(k0, first), *rest]
                 yield {'kind': 'seq', 'n': n, 'seq': [o for _, o in w], 'method': 'shell', 'kinds': [kd for kd, _ in w]}
+    elif k == 'rseq':
+        _, n, R, first, method = spec
+        for rest in itertools.product(EXT, repeat=R - 1):
+            seq = [first, *rest]
+            if all(o in OUTCOMES for o in seq):
+                continue        # words over the basic outcomes are all in the seq family, at a greater length
+            case = {'kind': 'seq', 'n': n, 'seq': seq, 'method': method}
+            if method == 'shell':
+                case['kinds'] = [SHELL_KINDS[(i + EXT.index(first)) % 5] for i in range(R)]
+            yield case
     elif k == 'multi':
-        _, na, nb, M, entry, create, first = spec
-        letters = [[c, o] for c in (0, 1) for o in OUTCOMES]
+        _, na, nb, M, entry, create, first, alpha = spec
+        letters = [[c, o] for c in (0, 1) for o in ALPHABETS[alpha]]
         for w in itertools.product(letters, repeat=M):
             if first is not None and w[0][1] != first:
                 continue
             yield {'kind': 'multi', 'ns': [na, nb], 'word': [list(x) for x in w], 'entry': entry, 'create': create}
     elif k == 'shared':
-        _, n, S, first = spec
-        letters = [[h, o] for h in (0, 1, 2) for o in OUTCOMES]
+        _, n, S, first, alpha = spec
+        letters = [[h, o] for h in (0, 1, 2) for o in ALPHABETS[alpha]]
         for h0 in (0, 1, 2):
             for rest in itertools.product(letters, repeat=S - 1):
                 yield {'kind': 'shared', 'n': n, 'word': [[h0, first], *[list(x) for x in rest]]}
@@ -494,14 +584,19 @@ def _cases(spec):
 def run_shard(spec, tier):
     r = Result()
     if spec[0] == 'long':
-        _, n, N, method, W = spec
+        _, n, N, method, W, alpha = spec
         case = {'kind': 'long', 'n': n, 'N': N, 'W': W, 'method': method}
+        if alpha != 'basic':
+            case['alpha'] = alpha
+        seen = RETRIES_SEEN[0]
         vs, _, _ = run_long(case, r)
+        r.extra['retries of a request (the node they reach is not judged)'] += RETRIES_SEEN[0] - seen
         for d, detail in vs:
             r.out('rotation-broken')
             r.viol(d, case, detail)
         return r
     case = None
+    seen = RETRIES_SEEN[0]
     for case in _cases(spec):
         r.ev()
         vs, results, obs = run_case(case)
@@ -523,6 +618,7 @@ def run_shard(spec, tier):
             r.sample(case)
     if case is not None:
         r.sample(case)
+    r.extra['retries of a request (the node they reach is not judged)'] += RETRIES_SEEN[0] - seen
     return r
 
 
